@@ -298,16 +298,30 @@ def check(run):
     run.ob("R5-SIZE", "factor*percentage", factor is not None and pct is not None and factor * pct >= 1024 * 100, F.where(df),
            "capacity = kb * %s filled to %s%%: %s >= 102400 required for `at least the requested kilobytes`" % (factor, pct, (factor or 0) * (pct or 0)),
            sample={"factor": factor, "percentage": pct})
-    # the loop condition compares 100*len with percentage*capacity
+    # the loop condition compares 100*len with percentage*capacity (either operand order, either side of the comparison)
+    def product(e):
+        e = hirq.unwrap_trivial(e)
+        if e.get("k") == "Binary" and e.get("op") == "Mul":
+            return product(e["lhs"]) + product(e["rhs"])
+        return [e]
+
+    def side(e):
+        fs = product(e)
+        if len(fs) != 2:
+            return None
+        lits = [f.get("v") for f in fs if f.get("k") == "Lit"]
+        names = [hirq.local_name_of(f) for f in fs]
+        cs = [(hirq.callee(c) or "") for f in fs for c in hirq.calls(f)]
+        if lits == [100] and any(c.endswith("String::len") for c in cs):
+            return "len"
+        if "percentage" in names and any(c.endswith("String::capacity") for c in cs):
+            return "cap"
+        return None
     ok = False
     for n in walk(fz["hir"]):
-        if n.get("k") == "Binary" and n.get("op") == "Lt":
-            l, r = n["lhs"], n["rhs"]
-            if l.get("k") == "Binary" and l["op"] == "Mul" and l["lhs"].get("v") == 100 and r.get("k") == "Binary" and r["op"] == "Mul" \
-                    and hirq.local_name_of(r["lhs"]) == "percentage":
-                lc = [hirq.callee(c) for c in hirq.calls(l)]
-                rc = [hirq.callee(c) for c in hirq.calls(r)]
-                if any((c or "").endswith("String::len") for c in lc) and any((c or "").endswith("String::capacity") for c in rc):
-                    ok = True
+        if n.get("k") == "Binary" and n.get("op") in ("Lt", "Le", "Gt", "Ge"):
+            l, r = side(n["lhs"]), side(n["rhs"])
+            if (n["op"] in ("Lt", "Le") and (l, r) == ("len", "cap")) or (n["op"] in ("Gt", "Ge") and (l, r) == ("cap", "len")):
+                ok = True
     run.ob("R5-SIZE", "loop-condition", ok, F.where(fz), "the fill loop must run while 100 * len < percentage * capacity")
     run.assume("String::with_capacity(n).capacity() >= n; rand distributions only return indices with non-zero weight")
